@@ -318,6 +318,26 @@ theorem ss_c_str {N : Nat} {s : SStr} {es : List Byte} (h : SAbs N s es) :
   have : x ≠ 0 := fun e => hz (e ▸ hx)
   simp [nz]; exact this
 
+/-- `split<VSize,SSize>(delim)` (std_portable.h) of a string holding `es`, for
+    every VSize, SSize, delimiter and contents: no access outside the string or
+    outside any token object, at most VSize tokens of at most SSize characters
+    each, and they are the first VSize tokens of the reference tokenizer
+    (`tokens`: maximal delimiter-free runs, empty ones skipped), each cut to its
+    first SSize characters. -/
+theorem ss_split_refines {N : Nat} {s : SStr} {es : List Byte} (h : SAbs N s es) (delim : Byte) (VS SS : Nat)
+    {junk : List Byte} (hj : junk.length = SS + 1) :
+    ∃ toks, sSplit s delim VS SS junk = .ok toks ∧ toks.length ≤ VS ∧
+      (∀ t, t ∈ toks → t.size ≤ SS ∧ t.data.length = SS + 1) ∧
+      toks.map SStr.contents = ((tokens delim es).map (List.take SS)).take VS := by
+  obtain ⟨toks, h1, h2, h3, h4⟩ := sSplit_spec h delim VS SS hj
+  refine ⟨toks, h1, h3, ?_, h4⟩
+  intro t ht
+  have := h2 t ht
+  exact ⟨by rw [this.size]; exact this.le, this.len⟩
+
+/-- the reference tokenizer on ",a,,bc," -/
+example : tokens 0x2c [0x2c, 0x61, 0x2c, 0x2c, 0x62, 0x63, 0x2c] = [[0x61], [0x62, 0x63]] := by decide
+
 /-- before the repair: "abcde" into a `static_string<3>` writes `data[4]` -/
 theorem ss_ctor_orig_witness :
     (match sCtorPtrOrig (List.replicate 4 0xAA) [0x61, 0x62, 0x63, 0x64, 0x65, 0] with
